@@ -243,6 +243,8 @@ class Gen:
             if r is not None:
                 return r
         if d <= 0:
+            if self.k.get("p_leaf") and self.p(self.k["p_leaf"]):
+                return {"t": "leaf", "label": self.ch(["A", "B"])}
             c = self.wch([("field", 6), ("val", 3), ("star", 0.3), ("param", 0.3), ("pseudo", 0.2),
                           ("null", 0.2)])
             if c == "field":
@@ -552,8 +554,132 @@ class Gen:
             x = {"t": "meth", "x": self.g_field(alias_ok=False), "m": "isin", "a": [[1, 2, 3]]}
         return self.emit({"op": "new", "x": x}, scope=scope)
 
+    def g_statement(self):
+        """A complete statement of a random kind as one inline chain (population for render histories)."""
+        cls = self.ch(self.k["qcls"])
+        C = {"t": "cls", "name": cls}
+        d = self.k["depth"]
+        tb = self.g_table(allow_ref=self.p(0.3))
+        tb2 = self.ch([t for t in TABLE_POOL if t["name"] != tb.get("name", "?")] or TABLE_POOL)
+        scope = [tb]
+
+        def m(x, name, *a, **kw):
+            n = {"t": "meth", "x": x, "m": name, "a": list(a)}
+            if kw:
+                n["kw"] = kw
+            return n
+
+        def join(x):
+            nonlocal scope
+            item = dict(tb2)
+            item["fresh"] = True
+            crit = {"t": "bin", "op": "eq", "l": self.g_field([tb], alias_ok=False), "r": self.g_field([tb2], alias_ok=False)}
+            scope = scope + [tb2]
+            how = {"t": "enum", "c": "JoinType", "v": self.ch(JOINTYPES)} if self.p(0.4) else None
+            return {"t": "join", "x": x, "item": item, "how": how, "fin": "on", "a": [crit]}
+
+        kind = self.wch([("select", 5), ("update", 3), ("insert", 3), ("delete", 1.5), ("insert_select", 1),
+                         ("setop", 1), ("create", 0.8)])
+        if kind == "select":
+            x = m(C, "from_", tb)
+            if self.p(0.5):
+                x = join(x)
+            x = m(x, "select", *[self.sel_item_plain(scope) for _ in range(self.rng.randint(1, 3))])
+            if self.p(0.6):
+                x = m(x, "where", self.g_crit(d, scope))
+            if self.p(0.3):
+                x = m(x, "groupby", self.g_field(scope, alias_ok=False))
+                if self.p(0.5):
+                    x = m(x, "having", self.g_crit(1, scope))
+            if self.p(0.4):
+                x = m(x, "orderby", self.g_field(scope, alias_ok=False))
+            if self.p(0.3):
+                x = m(x, "limit", self.ch([1, 10]))
+            if self.p(0.2):
+                x = m(x, "offset", self.ch([0, 5]))
+            if self.p(0.35):
+                names = ["a", "b", "c", "d1", "tbl_e"]
+                self.rng.shuffle(names)
+                x = m(x, "for_update", of={"t": "v", "k": "tuple", "v": names[: self.rng.randint(0, 4)]})
+            if self.p(0.2):
+                x = m(x, "distinct")
+            if self.p(0.2):
+                x = m(x, "force_index", "ix1")
+        elif kind == "update":
+            x = m(C, "update", tb)
+            if self.p(0.6):
+                x = join(x)
+            for _ in range(self.rng.randint(1, 2)):
+                x = m(x, "set", self.ch(COLS), self.g_pyval() if self.p(0.6) else self.g_expr(1, scope))
+            if self.p(0.3):
+                x = m(x, "from_", self.ch(TABLE_POOL))
+            if self.p(0.6):
+                x = m(x, "where", self.g_crit(d, scope))
+            if self.p(0.2):
+                x = m(x, "limit", 5)
+            if cls == "PostgreSQLQuery" and self.p(0.4):
+                x = m(x, "returning", self.ch(COLS))
+        elif kind == "insert":
+            x = m(C, "into", tb)
+            if self.p(0.6):
+                x = m(x, "columns", "x", "y")
+            for _ in range(self.rng.randint(1, 2)):
+                x = m(x, "insert", self.g_pyval(), self.g_pyval(simple=True))
+            if self.p(0.5):
+                x = m(x, "on_conflict", *(["x"] if self.p(0.8) else []))
+                if self.p(0.6):
+                    x = m(x, "do_update", "y", *([self.g_pyval(True)] if self.p(0.6) else []))
+                else:
+                    x = m(x, "do_nothing")
+            if cls == "PostgreSQLQuery" and self.p(0.4):
+                x = m(x, "returning", self.ch(["*", "x"]))
+        elif kind == "delete":
+            x = m(m(C, "from_", tb), "delete")
+            if self.p(0.7):
+                x = m(x, "where", self.g_crit(d, scope))
+            if cls == "PostgreSQLQuery" and self.p(0.4):
+                x = m(x, "returning", self.ch(["*", "x"]))
+        elif kind == "insert_select":
+            x = m(m(m(C, "into", tb), "from_", tb2), "select", self.g_field([tb2]), self.g_field([tb2]))
+            if self.p(0.3):
+                x = m(x, "columns", "x", "y")
+        elif kind == "setop":
+            x = m(self.g_query(1, cls=cls, nsel=1), self.ch(SETOPS), self.g_query(1, cls=cls, nsel=1))
+            if self.p(0.4):
+                x = m(x, "orderby", self.ch(COLS))
+            if self.p(0.3):
+                x = m(x, "limit", 3)
+            scope = []
+        else:
+            x = m(m(C, "create_table", "t_new"), "columns", {"t": "v", "k": "tuple", "v": ["id", "INT"]},
+                  {"t": "new", "c": "Column", "a": ["name", "VARCHAR(10)"], "kw": {"default": self.g_pyval(True)}})
+            if self.p(0.5):
+                x = m(x, "unique", "name")
+            if self.p(0.5):
+                x = m(x, "primary_key", "id")
+            scope = []
+        return x, scope
+
+    def sel_item_plain(self, scope):
+        c = self.wch([("field", 6), ("expr", 2.5), ("agg", 1), ("val", 1), ("tstar", 0.6), ("case", 0.5), ("an", 0.5)])
+        if c == "field":
+            return self.g_field(scope)
+        if c == "expr":
+            return self.g_expr(self.k["depth"], scope)
+        if c == "agg":
+            return {"t": "new", "c": self.ch(AGG), "a": [self.g_field(scope, alias_ok=False)]}
+        if c == "val":
+            return self.g_pyval()
+        if c == "tstar":
+            return {"t": "star", "tbl": self.scope_table(scope)}
+        if c == "case":
+            return self.g_case(self.k["depth"], scope)
+        return self.g_analytic(1, scope)
+
     def g_entry(self):
         """Query entry point spec + its scope."""
+        if self.k.get("p_stmt") and self.p(self.k["p_stmt"]):
+            return self.g_statement()
         cls = self.ch(self.k["qcls"])
         C = {"t": "cls", "name": cls}
         kw = {}
